@@ -250,6 +250,10 @@ def run_history(kind, calls, tid, w0, hist, events, gen=None):
                 a = gen(rig, i)
                 if a is None:
                     break
+            if a["ev"] == "StripInherit":
+                cur = rig.entry()
+                if not (cur["present"] and cur["hasInherit"]):
+                    break  # premise of the planned step does not hold on the real cache: the earlier steps carry the verdict
             out = rig.apply(a)
             i += 1
             ev = dict(tid=tid, i=i, ev=a["ev"], kind=kind, w=rig.world(), regen=False, failed=False, err="",
@@ -274,49 +278,53 @@ def random_world(r_):
 
 
 def random_gen(r_, steps):
+    """Random histories; edits are biased towards the files the ebuild / the cache entry depend on."""
+
     def gen(rig, i):
         if i >= steps:
             return None
         w = rig.world()
-        x = r_.random()
-        if i == 0 or x < 0.45:
+        en = rig.entry()
+        if i == 0 or r_.random() < 0.45:
             return A("Read")
-        present = [(r, n) for r in ("m", "o") for n in ("a", "b") if w["ecl"][r][n]["cid"]]
-        acts = []
+        acts = []  # (weight, action)
+        relevant = set(INH[w["eb"]["inh"]]) | {x["name"] for x in en["ecl"] if x["name"] in ("a", "b")}
+        for n in ("a", "b"):
+            k = 3 if n in relevant else 1
+            res = "o" if w["ecl"]["o"][n]["cid"] else ("m" if w["ecl"]["m"][n]["cid"] else None)
+            for r in ("m", "o"):
+                f = w["ecl"][r][n]
+                c, nest = r_.randint(1, 3), (n == "a" and r_.random() < 0.5)
+                if (c, nest) != (f["cid"], f["nest"]):
+                    acts.append((k if (r == res or (r == "o" and res == "m")) else 1, A("EditEclass", r=r, n=n, cid=c, nest=nest)))
+                if f["cid"]:
+                    hot = k if r == res else 1
+                    acts.append((hot, A("RemoveEclass", r=r, n=n)))
+                    acts.append((1, A("TouchEclass", r=r, n=n)))
+                    r2 = "o" if r == "m" else "m"
+                    if not w["ecl"][r2][n]["cid"]:
+                        acts.append((hot, A("MoveEclass", r=r, n=n, r2=r2)))
         for _ in range(2):
             c, inh = r_.randint(1, 3), r_.choice(list(INH))
             if (c, inh) != (w["eb"]["cid"], w["eb"]["inh"]):
-                acts.append(A("EditEbuild", cid=c, inh=inh))
-        acts.append(A("TouchEbuild"))
-        for _ in range(3):
-            r, n = r_.choice(["m", "o"]), r_.choice(["a", "b"])
-            c, nest = r_.randint(1, 3), (n == "a" and r_.random() < 0.5)
-            if (c, nest) != (w["ecl"][r][n]["cid"], w["ecl"][r][n]["nest"]):
-                acts.append(A("EditEclass", r=r, n=n, cid=c, nest=nest))
-        for r, n in present:
-            acts.append(A("RemoveEclass", r=r, n=n))
-            acts.append(A("TouchEclass", r=r, n=n))
-            r2 = "o" if r == "m" else "m"
-            if not w["ecl"][r2][n]["cid"]:
-                acts.append(A("MoveEclass", r=r, n=n, r2=r2))
-                acts.append(A("MoveEclass", r=r, n=n, r2=r2))
-        en = rig.entry()
+                acts.append((2, A("EditEbuild", cid=c, inh=inh)))
+        acts.append((1, A("TouchEbuild")))
         if en["present"] and en["hasInherit"]:
-            acts.append(A("StripInherit"))
-        return r_.choice(acts)
+            acts.append((2, A("StripInherit")))
+        return r_.choices([a for _w, a in acts], weights=[w_ for w_, _a in acts])[0]
 
     return gen
 
 
-def mc_cfg(kind, maxcid, initcid, steps, check_ecl=True, check_dir=True, only=None):
+def mc_cfg(kind, maxcid, initcid, steps, check_ecl=True, check_dir=True, only=None, inh='"", "a", "b", "ab"'):
     invs = only or ["Coherent", "ReadFresh", "ReadFailsOnlyWhenBroken", "EntryValidAfterRead", "NoEntryAfterFailure"]
-    return ("SPECIFICATION Spec\nCONSTANTS\n  Kinds = {\"%s\"}\n  MaxCid = %d\n  InitCid = %d\n  MaxSteps = %d\n  CheckEclasses = %s\n"
-            "  CheckDir = %s\n%s%s" % (kind, maxcid, initcid, steps, "TRUE" if check_ecl else "FALSE", "TRUE" if check_dir else "FALSE",
+    return ("SPECIFICATION Spec\nCONSTANTS\n  Kinds = {\"%s\"}\n  MaxCid = %d\n  InitCid = %d\n  InitInh = {%s}\n  MaxSteps = %d\n  CheckEclasses = %s\n"
+            "  CheckDir = %s\n%s%s" % (kind, maxcid, initcid, inh, steps, "TRUE" if check_ecl else "FALSE", "TRUE" if check_dir else "FALSE",
                                       "".join(f"INVARIANT {x}\n" for x in invs), "" if only else "PROPERTY ReadsAllowed\n"))
 
 
 def sim_cfg(maxcid, initcid, d):
-    return ("SPECIFICATION SimSpec\nCONSTANTS\n  Kinds = {\"md5\", \"flat\"}\n  MaxCid = %d\n  InitCid = %d\n  MaxSteps = 99\n"
+    return ("SPECIFICATION SimSpec\nCONSTANTS\n  Kinds = {\"md5\", \"flat\"}\n  MaxCid = %d\n  InitCid = %d\n  InitInh = {\"a\", \"b\", \"ab\"}\n  MaxSteps = 99\n"
             "  CheckEclasses = TRUE\n  CheckDir = TRUE\n  D = %d\nINVARIANT Emit\n" % (maxcid, initcid, d))
 
 
@@ -380,7 +388,8 @@ def _run(ck, calls):
     # ---- 1. model checking
     if ck.quick:
         ck.mc("CacheValidity_MC", cfg_text=mc_cfg("md5", 2, 1, 3), workers=4, timeout=300, label="MC:CacheValidity_MC md5 steps<=3")
-        ck.mc("CacheValidity_MC", cfg_text=mc_cfg("flat", 2, 1, 2), workers=4, timeout=300, label="MC:CacheValidity_MC flat steps<=2")
+        ck.mc("CacheValidity_MC", cfg_text=mc_cfg("flat", 1, 1, 3, inh='"a"'), workers=4, timeout=300,
+              label="MC:CacheValidity_MC flat steps<=3 (ebuild inherits a)")
     else:
         ck.mc("CacheValidity_MC", cfg_text=mc_cfg("md5", 2, 2, 4), workers=8, timeout=2400, heap="6g", label="MC:CacheValidity_MC md5 steps<=4")
         ck.mc("CacheValidity_MC", cfg_text=mc_cfg("flat", 2, 1, 3), workers=8, timeout=2400, heap="6g", label="MC:CacheValidity_MC flat steps<=3")
@@ -389,24 +398,45 @@ def _run(ck, calls):
                         label=f"MC:CacheValidity_MC vacuity guard ({lab}, must fail)", expect_ok=False)
             if res.violated != "ReadFresh":
                 raise tlc.MachineryError(f"vacuity guard '{lab}' should violate ReadFresh, got {res.violated}")
-    # ---- 2. spec -> code: TLC-simulated histories
-    D = ck.pick(5, 9)      # R e R e R ...
+    # ---- 2a. spec -> code: the canonical scenarios of CacheValidity_Scenarios, both cache kinds
     meta, events = {}, []
     tid = 0
-    budget = ck.pick(36, 800)
     skipped = 0
-    nsim = ck.pick(8, 260)
+    scale = float(os.environ.get("VERIF_TIME_SCALE", "1"))  # time boxes of the daemon phases (loaded machine: scale up)
+    budget_scen, budget_sim, budget_rand = ck.pick(22, 120) * scale, ck.pick(6, 280) * scale, ck.pick(6, 200) * scale
+    scen = ck.export("CacheValidity_Scenarios", label="Export:CacheValidity_Scenarios", timeout=300)
+    first = ["removed-for-good", "removed-fallback", "eclass-edited", "indirect-edited", "ebuild-edited", "moved-to-overlay",
+             "shadowed", "strip-inherit", "indirect-removed", "hit"]
+    scen.sort(key=lambda c: (first.index(c["name"]) if c["name"] in first else len(first), c["name"], c["kind"]))
+    t_phase = time.time()
+    for c in scen:
+        if time.time() - t_phase > budget_scen and tid >= 8:
+            skipped += 1
+            continue
+        done = run_history(c["kind"], calls, tid, c["w0"], c["hist"], events)
+        meta[tid] = dict(origin="scenario:" + c["name"], w0=c["w0"], hist=done)
+        ck.count()
+        if _nontrivial(done):
+            ck.nontriv((c["kind"], repr(c["w0"]), repr(done)))
+        tid += 1
+    ck.extra["scenarios_run"] = tid
+    # ---- 2b. spec -> code: TLC-simulated histories
+    D = ck.pick(5, 9)      # R e R e R ...
+    nsim = ck.pick(4, 170)
     sim = tlc.run("CacheValidity_Sim", cfg_text=sim_cfg(3, 2, D), simulate=f"num={nsim}", depth=D + 1, seed=seed() + 48,
                   workers=1, timeout=900)
     ck.add_mc(f"Simulate:CacheValidity_Sim num={nsim} depth={D}", sim)
     behs = [(p[1], p[2], p[3]) for p in sim.tagged("BEH")]
     if len(behs) < nsim // 2:
         raise tlc.MachineryError(f"simulation produced only {len(behs)} behaviours\n{sim.out[-2000:]}")
+    t_phase = time.time()
+    sim_done = 0
     for kind, w0, hist in behs[:nsim]:
-        if time.time() - t_start > budget * 0.6 and tid >= 4:
+        if time.time() - t_phase > budget_sim and sim_done >= 2:
             skipped += 1
             continue
         done = run_history(kind, calls, tid, w0, hist, events)
+        sim_done += 1
         meta[tid] = dict(origin="tlc-sim", w0=w0, hist=done)
         ck.count()
         if _nontrivial(done):
@@ -417,10 +447,11 @@ def _run(ck, calls):
                        regen=[e["regen"] for e in events if e["tid"] == 0 and e["ev"] == "Read"]))
     # ---- 3. code -> spec: random histories
     r_ = rng(48)
-    nrand = ck.pick(6, 160)
+    nrand = ck.pick(4, 110)
     first_random = tid
+    t_phase = time.time()
     for k in range(nrand):
-        if time.time() - t_start > budget:
+        if time.time() - t_phase > budget_rand and k >= 2:
             skipped += 1
             continue
         kind = "md5" if k % 2 == 0 else "flat"
